@@ -14,7 +14,7 @@ import (
 	"github.com/markkurossi/mpc/circuit"
 )
 
-// The scope guard (oversizeMPCLC) mirrors the parser of the unchanged tree.
+// The scope guard (oversizeMPCLC) mirrors the parser of the pinned tree.
 // When the code under test differs (a mutated or repaired parser) a file may
 // make the real parser allocate gigabytes or spin in a regexp.  Every parser
 // call is therefore first made in a child process ("canary") with an address
